@@ -484,6 +484,9 @@ func intGen(c *Ctx) {
 				skip := rng.Intn(400000)
 				if wdw == 0 {
 					skip = rng.Intn(2000)
+					if i == 0 {
+						skip = 0 // from the very first machine cycle after power-on
+					}
 				}
 				w.Put(romTrace(fmt.Sprintf("int-rom-%d", k), rom, skip, units))
 				k++
